@@ -243,8 +243,10 @@ def _edge_feature(rm, i):
     return ""
 
 
-def judge_c11(rm, obs, exception_edges_ok=False):
+def judge_c11(rm, obs):
+    """-> (violations, number of tolerated exception edges).  Successors are compared as SETS of blocks."""
     v = []
+    tolerated = 0
     bl = obs["blocks"]
     succ_obs = {}
     for b in bl:
@@ -252,7 +254,7 @@ def judge_c11(rm, obs, exception_edges_ok=False):
         if last is None:
             continue
         got = set(b["childs"])
-        succ_obs[b["start"]] = got
+        succ_obs[b["start"]] = set(got)
         if last[2] == "payload" and last[0] + last[1] < rm.size:
             continue                      # a payload followed by code: never executed, successors not judged
         want = set()
@@ -260,6 +262,20 @@ def judge_c11(rm, obs, exception_edges_ok=False):
             tb = _block_of(bl, t)
             if tb is not None:
                 want.add(tb["start"])
+        extra = got - want
+        if extra and rm.tries:
+            # exception edges: tolerated iff they are exactly handler blocks of a try covering an instruction of the block
+            offs = [o for o in rm.order if b["start"] <= o < b["end"]]
+            hb = set()
+            for t in rm.tries:
+                if any(t[0] <= o < t[1] for o in offs):
+                    for _, a in t[2]:
+                        hbk = _block_of(bl, a)
+                        if hbk is not None:
+                            hb.add(hbk["start"])
+            if extra <= hb:
+                tolerated += len(extra)
+                got = got - extra
         if got != want:
             v.append(("succ:%s%s" % (last[2], _edge_feature(rm, last)),
                       "block [%#x,%#x) ending in %s@%#x (targets %s): successors %s, the bytecode allows %s"
@@ -277,7 +293,7 @@ def judge_c11(rm, obs, exception_edges_ok=False):
             v.append(("pred:%s%s" % ((li[2], _edge_feature(rm, li)) if li else ("none", "")),
                       "block [%#x,%#x): predecessors %s but the blocks that list it as successor are %s"
                       % (b["start"], b["end"], [hex(x) for x in sorted(got)], [hex(x) for x in sorted(want)])))
-    return v
+    return v, tolerated
 
 
 # --------------------------------------------------------------------------------------------------- C12
